@@ -59,7 +59,7 @@ impl Prop for C10 {
         }
     }
     fn rule(&self) -> &'static str {
-        "one run = two commands (backup||prune, prune||backup, backup||backup, backup||two prune runs in a row; in half of the runs everything stored before is older than keep-delete) with their own repository handles on one SimStore, every backend call of both (reads included) a gate; \
+        "one run = two commands (backup||prune, prune||backup, backup||backup, backup||two prune runs in a row; a quarter of the runs with everything stored before older than keep-delete, a quarter with packs already marked by an earlier prune whose keep-delete time has passed) with their own repository handles on one SimStore, every backend call of both (reads included) a gate; \
          70% of runs use the actor-segmented policy (A runs j ops, then B runs l ops or to its end, then A, then B — j and l drawn over the whole op sequence), the rest random/PCT/starve policies; \
          the prune is non-instant with keep-delete far above the simulated duration of the overlap; overlapping sources share content so the late backup re-uses blobs from packs the prune marks. \
          Oracles: at every prefix of the combined mutation log that removes a pack or publishes a snapshot, every blob referenced by a visible snapshot is physically present in a stored pack; \
@@ -151,12 +151,26 @@ impl Prop for C10 {
         }
         // in half of the runs everything stored so far is older than keep-delete when the overlap begins
         // (keep-delete counts from the moment a pack is marked, not from its creation)
-        if rng.chance(1, 2) {
-            interpose::clock_advance(3 * 86_400_000_000_000);
-            rep.fire("prestate_older_than_keep_delete", 1);
+        let keep_delete_s = 86_400;
+        match rng.usize(4) {
+            0 | 1 => {}
+            2 => {
+                interpose::clock_advance(3 * 86_400_000_000_000);
+                rep.fire("prestate_older_than_keep_delete", 1);
+            }
+            _ => {
+                // an earlier prune has already marked the packs of the forgotten content, and their
+                // keep-delete time has passed when the overlap begins: the concurrent prune may remove them,
+                // the concurrent backup (whose source shares that content) must not rely on them
+                if let r @ (Cmd::Err(_) | Cmd::Panic(_) | Cmd::NoProgress | Cmd::Harness(_)) = sim.prune(&Mode::Free, 1, &prune_opts(s.repack, keep_delete_s)) {
+                    rep.violation(format!("C10/prestate-prune-{}", r.class()), r.detail());
+                    return rep;
+                }
+                interpose::clock_advance(3 * 86_400_000_000_000);
+                rep.fire("prestate_with_marked_packs_past_keep_delete", 1);
+            }
         }
         let s0 = sim.store.files();
-        let keep_delete_s = 86_400;
 
         // ---------- the concurrent phase
         let policy = match s.segments {
